@@ -1324,7 +1324,9 @@ func installBuiltins(in *Interp, p *Package) {
 		if a[0].T != TSym {
 			return nil, in.errf("condition type is not a symbol")
 		}
-		return nil, in.cond(a[0].S, append([]*V{}, a[1:]...), "")
+		e := in.cond(a[0].S, append([]*V{}, a[1:]...), "")
+		e.User = true
+		return nil, e
 	})
 	B("rethrow", 0, 0, func(in *Interp, env *Env, a []*V) (*V, *Err) {
 		if len(in.condStk) == 0 {
@@ -1332,9 +1334,18 @@ func installBuiltins(in *Interp, p *Package) {
 		}
 		return nil, in.condStk[len(in.condStk)-1]
 	})
+	B("host-cond", 1, 1, func(in *Interp, env *Env, a []*V) (*V, *Err) {
+		id := 0
+		if n := len(in.condStk); n > 0 {
+			id = in.condStk[n-1].ID
+		}
+		in.CondIDs = append(in.CondIDs, id)
+		in.Trace = append(in.Trace, Event{"host-cond", Canon(a[0])})
+		return Nil(), nil
+	})
 	B("host-panic", 1, 1, func(in *Interp, env *Env, a []*V) (*V, *Err) {
 		in.Trace = append(in.Trace, Event{"host-panic", Canon(a[0])})
-		e := in.cond("internal-panic", nil, "host panic")
+		e := in.cond("internal-panic", []*V{Str(BuiltinMsg)}, "host panic")
 		e.Panic = true
 		return nil, e
 	})
